@@ -10,8 +10,13 @@ import (
 func (self *Transformer) Statements(input []ast.AnalyzedStatement) []ast.AnalyzedStatement {
 	outStmts := make([]ast.AnalyzedStatement, 0)
 
-	for _, stmt := range input {
-		outStmts = append(outStmts, self.Statement(stmt))
+	for idx, stmt := range input {
+		// A block whose last statement never completes (a `return`, a `loop` without `break`) is of type never,
+		// e.g. the body of a function with a result. Such a statement must not be replaced by a variant
+		// which may complete (`if true { return x; }` is of type null): the program would no longer type-check.
+		keepNever := idx == len(input)-1 && stmt.Type().Kind() == ast.NeverTypeKind
+		variants := self.stmtVariants(stmt, keepNever)
+		outStmts = append(outStmts, ChoseRandom[ast.AnalyzedStatement](variants, self.randSource))
 	}
 
 	return outStmts
@@ -35,12 +40,12 @@ func (self *Transformer) Block(node ast.AnalyzedBlock) ast.AnalyzedBlock {
 }
 
 func (self *Transformer) Statement(node ast.AnalyzedStatement) ast.AnalyzedStatement {
-	variants := self.stmtVariants(node)
+	variants := self.stmtVariants(node, false)
 	selected := ChoseRandom[ast.AnalyzedStatement](variants, self.randSource)
 	return selected
 }
 
-func (self *Transformer) stmtVariants(node ast.AnalyzedStatement) []ast.AnalyzedStatement {
+func (self *Transformer) stmtVariants(node ast.AnalyzedStatement, keepNever bool) []ast.AnalyzedStatement {
 	output := make([]ast.AnalyzedStatement, 0)
 
 	switch node.Kind() {
@@ -83,24 +88,26 @@ func (self *Transformer) stmtVariants(node ast.AnalyzedStatement) []ast.Analyzed
 				},
 				Range: node.Span(),
 			}))
-		output = append(output, ast.AnalyzedWhileStatement{
-			Condition: ast.AnalyzedBlockExpression{
-				Block: ast.AnalyzedBlock{
-					Statements: []ast.AnalyzedStatement{node},
+		if !keepNever {
+			output = append(output, ast.AnalyzedWhileStatement{
+				Condition: ast.AnalyzedBlockExpression{
+					Block: ast.AnalyzedBlock{
+						Statements: []ast.AnalyzedStatement{node},
+						Expression: nil,
+						Range:      node.Span(),
+						ResultType: ast.NewNeverType(),
+					},
+				},
+				Body: ast.AnalyzedBlock{
+					Statements: make([]ast.AnalyzedStatement, 0),
 					Expression: nil,
 					Range:      node.Span(),
-					ResultType: ast.NewNeverType(),
+					ResultType: ast.NewNullType(node.Span()),
 				},
-			},
-			Body: ast.AnalyzedBlock{
-				Statements: make([]ast.AnalyzedStatement, 0),
-				Expression: nil,
-				Range:      node.Span(),
-				ResultType: ast.NewNullType(node.Span()),
-			},
-			NeverTerminates: false,
-			Range:           node.Span(),
-		})
+				NeverTerminates: false,
+				Range:           node.Span(),
+			})
+		}
 	case ast.BreakStatementKind:
 		output = append(output, node)
 		output = append(output, ast.AnalyzedStatement(
@@ -173,15 +180,17 @@ func (self *Transformer) stmtVariants(node ast.AnalyzedStatement) []ast.Analyzed
 			NeverTerminates: false,
 			Range:           node.Span(),
 		})
-		output = append(output, ast.AnalyzedWhileStatement{
-			Condition: ast.AnalyzedBoolLiteralExpression{
-				Value: true,
-				Range: node.Range,
-			},
-			Body:            self.Block(node.Body),
-			NeverTerminates: false,
-			Range:           node.Span(),
-		})
+		if !keepNever {
+			output = append(output, ast.AnalyzedWhileStatement{
+				Condition: ast.AnalyzedBoolLiteralExpression{
+					Value: true,
+					Range: node.Range,
+				},
+				Body:            self.Block(node.Body),
+				NeverTerminates: false,
+				Range:           node.Span(),
+			})
+		}
 	case ast.WhileStatementKind:
 		node := node.(ast.AnalyzedWhileStatement)
 		output = append(output, self.WhileStmtAsLoop(node)...)
@@ -213,6 +222,11 @@ func (self *Transformer) stmtVariants(node ast.AnalyzedStatement) []ast.Analyzed
 
 	// The following transformations will create a new scope for the statement, rendering let-statements useless.
 	if node.Kind() == ast.LetStatementKind {
+		return output
+	}
+
+	// The following transformations create statements which may complete.
+	if keepNever {
 		return output
 	}
 
